@@ -63,6 +63,10 @@ const stepTimeout = 8 * time.Second
 // trace survives the death of the process).
 var EventSink func(label string, ev []byte)
 
+// StepSink, when set, is told which request is about to be executed (the child-process replayer records it, so that the
+// parent knows what the broker was serving when the process died or hung).
+var StepSink func(label string, raw []byte)
+
 // Keys minted for a broker, by model name.
 func mintKeys(b *bk.Broker) (map[string]string, error) {
 	out := map[string]string{"kBad": "thiskeydoesnotdecryptthiskeydoes"}
@@ -499,6 +503,9 @@ func ReplayN(nb int, surveyed bool, mode string, licVer int, storage string, wal
 			ev["p"] = a.P
 		}
 		isSub := ""
+		if StepSink != nil {
+			StepSink(label, raw)
+		}
 		f.startPump()
 		switch a.N {
 		case "connect":
